@@ -2698,3 +2698,30 @@ def split_record_attributes(prog: Program) -> list[str]:
                 p_.attr = new_names[p_.attr]
             log.append(f"{ci.name}: record attribute `{attr}` read as one attribute per field {sorted(new_names.values())}")
     return log
+
+
+# ---------------------------------------------------------------------------------------------- inherited plumbing
+def materialise_inherited_methods(prog: Program) -> list[str]:
+    """A class that inherits methods from a *private* base class of its own module (plumbing shared by sibling wrapper classes:
+    a common `__init__` / `__get__`) is read with those methods written into it: what an instance runs is the method found
+    through its MRO.  Methods that use `super()` / `__class__`, and names the subclass defines itself, are left alone."""
+    log: list[str] = []
+    for ci in list(prog.classes.values()):
+        bases = [c for c in prog.mro(ci)[1:] if c.module is ci.module and c.name.startswith("_") and not c.name.startswith("__")]
+        if not bases:
+            continue
+        own = {m.name for m in ci.node.body if isinstance(m, (ast.FunctionDef, ast.AsyncFunctionDef))} | {t.id for st in ci.node.body if isinstance(st, (ast.Assign, ast.AnnAssign)) for t in (st.targets if isinstance(st, ast.Assign) else [st.target]) if isinstance(t, ast.Name)}
+        added = []
+        for b in bases:
+            for m in b.node.body:
+                if not isinstance(m, (ast.FunctionDef, ast.AsyncFunctionDef)) or m.name in own:
+                    continue
+                if any(isinstance(x, ast.Name) and x.id in ("super", "__class__") for x in ast.walk(m)):
+                    continue
+                ci.node.body.append(clone(m))
+                own.add(m.name)
+                added.append(f"{b.name}.{m.name}")
+        if added:
+            ast.fix_missing_locations(ci.node)
+            log.append(f"{ci.name}: inherited from its private base(s), read as its own: {added}")
+    return log
